@@ -24,6 +24,9 @@ class Unsupported(Exception):
     pass
 
 
+KERN = {"on": False}   # focus 'kern': record the linear-algebra answers of the kernels from instrumented copies of their source
+
+
 class Marker(Exception):
     pass
 
@@ -55,6 +58,7 @@ class Case:
         self.vdefs = []
         self.events = []
         self.uf, self.ug, self.search, self.dcs, self.dots, self.cb, self.upd = [], [], [], [], {}, [], []
+        self.kern_gcp, self.kern_sub, self.kern_mismatch = [], [], 0   # per-iteration linear-algebra answers (focus 'kern')
         self.dcs_objs = []   # (parameters, calls) of every DCSRCH object of the run, for the traced replay (pow table)
         self.scaler = None
         self.ft = self.gt = None
@@ -228,10 +232,36 @@ def record(kw, opts=None):
             last["SY"] = (C.vl(list(np.asarray(mats.S, float).T)), C.vl(list(np.asarray(mats.Y, float).T)))
         else:
             last["SY"] = ("[]", "[]")
-        return o_cp(x, grad, lb, ub, mats, it, *a, **k)
+        last["it"] = int(it)
+        if KERN["on"] and getattr(mats, "use_factor", False):
+            # theta = y.y / s.y of the newest pair of the history the matrices were built from (update_lbfgs_matrices): the two
+            # dot products, for the model's mats_params (the same NumPy operation on the same vectors)
+            S_, Y_ = np.asarray(mats.S, float), np.asarray(mats.Y, float)
+            C.dot(Y_[:, -1].copy(), Y_[:, -1].copy())
+            C.dot(S_[:, -1].copy(), Y_[:, -1].copy())
+        out = o_cp(x, grad, lb, ub, mats, it, *a, **k)
+        if KERN["on"]:
+            from harness.corr import fcauchy as FC
+            f_i, rec, _ = FC.instrumented()
+            rec.log = []
+            with np.errstate(all="ignore"):
+                out_i = f_i(x, grad, lb, ub, mats, it, *a, **k)
+            if not (FC.same_bits(out_i[0], out[0]) and FC.same_bits(out_i[1], out[1])):
+                C.kern_mismatch += 1
+            C.kern_gcp.append((int(it), list(rec.log)))
+        return out
 
     def sub(x, xc, *a, **k):
         xb = o_sub(x, xc, *a, **k)
+        if KERN["on"]:
+            from harness.corr import fsubspace as FS
+            f_i, rec = FS.instrumented()
+            rec.reset()
+            with np.errstate(all="ignore"):
+                xb_i = f_i(x, xc, *a, **k)
+            if not FS.same_bits(xb_i, xb):
+                C.kern_mismatch += 1
+            C.kern_sub.append((last.get("it", -1), list(rec.log), int(np.asarray(x).size)))
         C.search.append((last["key"], "(%s, %s, %s)" % (C.v(np.asarray(xb, dtype=float).ravel()), last["SY"][0], last["SY"][1])))
         return xb
 
@@ -349,6 +379,36 @@ def render(name, C, kw, outcome, ckpt=None):
     # vector definitions are complete only now (rendering above may have added some)
     body = list(C.vdefs)
     body.append(f"Definition dcs_answers : list ((float * list (float * float * float)) * (float * task)) := [{'; '.join(C.dcs)}].")
+    if KERN["on"]:
+        from harness.corr import fcauchy as FC, fsubspace as FS
+        if C.kern_mismatch:
+            raise RuntimeError("an instrumented copy of get_cauchy_point / subspace_minimization did not reproduce the real function bit for bit")
+        tg = []
+        for it, log in C.kern_gcp:
+            tabs = {"WTd": [], "dd": [], "pMp": [], "wMc": [], "wMv": []}
+            for kind, ins, res in log:
+                if kind == "WTd":
+                    tabs[kind].append("(%s, %s)" % (FC.vlit(ins[0]), FC.vlit(res)))
+                elif kind in ("dd", "pMp"):
+                    tabs[kind].append("(%s, %s)" % (FC.vlit(ins[0]), FC.lit(res)))
+                else:
+                    tabs[kind].append("(%s, %s, %s)" % (FC.vlit(ins[0]), FC.vlit(ins[1]), FC.lit(res)))
+            tg.append("(%s, (FCauchy.table_oracles [%s] [%s] [%s] [%s] [%s])%%float)" % (cz(it), "; ".join(tabs["WTd"]), "; ".join(tabs["dd"]), "; ".join(tabs["pMp"]),
+                                                                       "; ".join(tabs["wMc"]), "; ".join(tabs["wMv"])))
+        ts = []
+        for it, log, n in C.kern_sub:
+            tWc, tcorr = [], []
+            for kind, ins, res in log:
+                if kind == "Wc":
+                    tWc.append("(%s, %s)" % (FS.vlit(ins[0]), FS.vlit(res)))
+                else:
+                    tcorr.append("(%s, %s, %s)" % (FS.mlit(ins[0], n), FS.vlit(ins[1]), FS.vlit(res)))
+            ts.append("(%s, (FSubspace.table_sub_oracles [%s] [%s])%%float)" % (cz(it), "; ".join(tWc), "; ".join(tcorr)))
+        body.append("Definition blas_answers : DriverKern.blas := DriverKern.mk_blas [%s] [%s]." % ("; ".join(tg), "; ".join(ts)))
+        body.append(f"Definition out : Z := check_run_kern [{'; '.join(pw)}] dcs_answers {user} blas_answers (mk_dot {dots}) {cfg} {expected} [{'; '.join(C.events)}].")
+        L.extend(body)
+        L.append(f"End {name}.")
+        return "\n".join(L)
     body.append(f"Definition out : Z := check_run_dcs [{'; '.join(pw)}] dcs_answers {user} (mk_search {srch}) (mk_dot {dots}) {cfg} {expected} [{'; '.join(C.events)}].")
     L.extend(body)
     L.append(f"End {name}.")
@@ -356,6 +416,7 @@ def render(name, C, kw, outcome, ckpt=None):
 
 
 HEADER = """From Coq Require Import List ZArith Bool String Floats.PrimFloat.
+From LBFGSB Require Model.DriverKern Model.FCauchy Model.FSubspace.
 From LBFGSB Require Import Base.Res Model.SF Model.FloatVec Model.Driver Model.DriverCheck.
 Import ListNotations.
 Open Scope Z_scope.
@@ -545,9 +606,10 @@ def gen_descs(tier, rng, focus=None):
         if focus == "cb":
             opts["cb"] = str(rng.choice(["record", "record", "stop2"]))
         r = rng.random()
-        if focus == "scaler" or (focus is None and r < 0.15):
+        mixed = focus in (None, "kern")
+        if focus == "scaler" or (mixed and r < 0.15):
             opts["scaler"] = float(10 ** rng.uniform(-3, 3))
-        elif focus == "upd" or (focus is None and r < 0.4):
+        elif focus == "upd" or (mixed and r < 0.4):
             opts["upd"] = str(rng.choice(["identity", "rescale", "adversarial", "adversarial"]))
             if opts["upd"] == "adversarial":
                 opts.update(adv_at=int(rng.integers(1, 7)), adv_mask=int(rng.integers(1, 255)), adv_drop=bool(rng.random() < 0.3))
@@ -611,6 +673,7 @@ def build_case(desc, name):
 def run(tier, focus=None):
     import zlib
     rng = np.random.default_rng([seed(), 777, zlib.crc32((focus or "").encode())])
+    KERN["on"] = (focus == "kern")
     descs = list(gen_descs(tier, rng, focus))
     texts, infos, kept = [], [], []
     skipped = 0
